@@ -19,7 +19,7 @@ PROPS = {
         ],
     },
     "C19": {
-        "lean_modules": ["JrpcProofs.Props.C19"],
+        "lean_modules": ["JrpcProofs.Props.C19", "JrpcProofs.Facts.Auth"],
         "assumptions": ["net/http delivers header and form values as documented; permissions are compared for equality only"],
     },
     "C10": {
@@ -56,5 +56,13 @@ PROPS = {
             "the harness's oracle for 'JSON round trip' is json.Unmarshal(json.Marshal(v)) into the declared type, compared with reflect.DeepEqual (floats by value and sign, raw JSON as values)",
             "results are restricted to encoding/json-serialisable values (README)",
         ],
+    },
+    "C20": {
+        "lean_modules": ["JrpcProofs.Props.C20", "JrpcProofs.Facts.Reader"],
+        "assumptions": [
+            "net/http streams the upload body faithfully and a blocking body never returns (0, nil); which chunk sizes it returns is taken from the trace",
+            "the rendezvous table has no observable trace without hooks: its theorem (C20_meet) is tied by the regenerated skeleton of ReaderParamDecoder and by forcing both arrival orders in the scenarios",
+        ],
+        "timeout": 1500,
     },
 }
